@@ -57,8 +57,12 @@ def build_font(desc, lib="ufoLib2"):
                 pen.addPoint((num(x), num(y)), segmentType=(None if t == "off" else t),
                              smooth=bool(pt[3]) if len(pt) > 3 else False)
             pen.endPath()
-        for base, tr in g.get("components", []):
-            pen.addComponent(base, tuple(num(v) for v in tr))
+        ids = g.get("component_ids") or []
+        for ci, (base, tr) in enumerate(g.get("components", [])):
+            if ci < len(ids) and ids[ci]:
+                pen.addComponent(base, tuple(num(v) for v in tr), identifier=ids[ci])     # (tied to public.objectLibs)
+            else:
+                pen.addComponent(base, tuple(num(v) for v in tr))
         for a in g.get("anchors", []):
             ad = {"name": a[0], "x": num(a[1]), "y": num(a[2])}
             if len(a) > 3 and a[3]:
